@@ -1889,3 +1889,203 @@ func constantStringVal(v constant.Value) string {
 	}
 	return v.ExactString()
 }
+
+// E5PageMemoFresh: a memo that lets a page skip registering a resource lives exactly as long as the page's resources.
+func E5PageMemoFresh(c *core.Ctx, r *core.Report) {
+	r.Rule("E5.page-memo", "a method of the PDF page writer that returns a remembered resource name on a hit of a map field (`if n, ok := w.F[k]; ok { return n }`) and registers the name in w.resources only on a miss relies on F having been filled for *this* page's resources. Wherever a page writer is created (a composite literal that gives it fresh resources) every such field F is initialised with a fresh map (a literal or make), not with a map that outlives the page: on a later page a hit would emit a name the page's /Resources do not define")
+	p := c.MustPkg(pdfRel)
+	info := p.TypesInfo
+	// memo fields per receiver type
+	memos := map[*types.Var]string{}
+	for _, fd := range core.AllFuncDecls(p) {
+		if fd.Body == nil || fd.Recv == nil || len(fd.Recv.List) == 0 || len(fd.Recv.List[0].Names) == 0 {
+			continue
+		}
+		recv := info.Defs[fd.Recv.List[0].Names[0]]
+		if recv == nil {
+			continue
+		}
+		registers := false
+		ast.Inspect(fd.Body, func(m ast.Node) bool {
+			if as, ok := m.(*ast.AssignStmt); ok {
+				for _, l := range as.Lhs {
+					if strings.Contains(types.ExprString(l), recv.Name()+".resources[") {
+						registers = true
+					}
+				}
+			}
+			return true
+		})
+		if !registers {
+			continue
+		}
+		for _, st := range fd.Body.List {
+			is, ok := st.(*ast.IfStmt)
+			if !ok || is.Init == nil || !allPathsReturn(is.Body) {
+				continue
+			}
+			as, ok := is.Init.(*ast.AssignStmt)
+			if !ok || len(as.Lhs) != 2 || len(as.Rhs) != 1 {
+				continue
+			}
+			ie, ok := core.Unparen(as.Rhs[0]).(*ast.IndexExpr)
+			if !ok {
+				continue
+			}
+			sel, ok := core.Unparen(ie.X).(*ast.SelectorExpr)
+			if !ok {
+				continue
+			}
+			if id, ok := core.Unparen(sel.X).(*ast.Ident); !ok || core.ObjOf(info, id) != recv {
+				continue
+			}
+			if s := info.Selections[sel]; s != nil && s.Kind() == types.FieldVal {
+				if fv, ok := s.Obj().(*types.Var); ok {
+					if _, isMap := fv.Type().Underlying().(*types.Map); isMap {
+						memos[fv] = core.FuncName(fd)
+					}
+				}
+			}
+		}
+	}
+	n := 0
+	for _, fd := range core.AllFuncDecls(p) {
+		if fd.Body == nil {
+			continue
+		}
+		ast.Inspect(fd.Body, func(m ast.Node) bool {
+			cl, ok := m.(*ast.CompositeLit)
+			if !ok {
+				return true
+			}
+			st, ok := info.TypeOf(cl).Underlying().(*types.Struct)
+			if !ok {
+				return true
+			}
+			for fv, method := range memos {
+				owns := false
+				for i := 0; i < st.NumFields(); i++ {
+					if st.Field(i) == fv {
+						owns = true
+					}
+				}
+				if !owns {
+					continue
+				}
+				n++
+				key := fmt.Sprintf("pdf.%s|new page writer|memo %s of %s is fresh", core.FuncName(fd), fv.Name(), method)
+				var val ast.Expr
+				for _, el := range cl.Elts {
+					if kv, ok := el.(*ast.KeyValueExpr); ok {
+						if k, ok := kv.Key.(*ast.Ident); ok && k.Name == fv.Name() {
+							val = kv.Value
+						}
+					}
+				}
+				fresh := false
+				switch v := core.Unparen(val).(type) {
+				case *ast.CompositeLit:
+					fresh = true
+				case *ast.CallExpr:
+					if id, ok := v.Fun.(*ast.Ident); ok && id.Name == "make" {
+						fresh = true
+					}
+				}
+				if fresh {
+					r.OK("E5.page-memo", key, c.Pos(cl.Pos()), "")
+				} else if val == nil {
+					r.Fail("E5.page-memo", key, c.Pos(cl.Pos()), fmt.Sprintf("the memo map %s is not initialised for a new page (nil map: the first registration panics)", fv.Name()))
+				} else {
+					r.Fail("E5.page-memo", key, c.Pos(val.Pos()), fmt.Sprintf("the new page's memo %s is `%s`, a map that outlives the page: %s returns a remembered name on a later page without registering it in that page's /Resources", fv.Name(), types.ExprString(val), method))
+				}
+			}
+			return true
+		})
+	}
+	r.Count("E5.page-memos", n)
+	r.Floor("E5.page-memos", 1)
+}
+
+// E5TextMatrixComplete: a relative text move is only used when the whole linear part of the text matrix is unchanged.
+func E5TextMatrixComplete(c *core.Ctx, r *core.Report) {
+	r.Rule("E5.text-matrix", "pdfPageWriter.SetTextPosition writes a relative move (Td) instead of a full text matrix (Tm) when only the translation changed. The condition for that compares all four linear entries [0][0], [0][1], [1][0], [1][1] of the requested matrix with the remembered one; leaving one out (a pure shear differs in [0][1] only) writes faux-italic text upright, so the PDF and the path rendering disagree on the outlines")
+	p := c.MustPkg(pdfRel)
+	info := p.TypesInfo
+	fd := core.MustFuncDecl(p, "pdfPageWriter.SetTextPosition")
+	r.Func("pdf.pdfPageWriter.SetTextPosition")
+	mObj := paramObj(info, fd, 0)
+	n := 0
+	ast.Inspect(fd.Body, func(m ast.Node) bool {
+		is, ok := m.(*ast.IfStmt)
+		if !ok {
+			return true
+		}
+		// the branch that writes Td
+		writesTd := false
+		ast.Inspect(is.Body, func(k ast.Node) bool {
+			if call, ok := k.(*ast.CallExpr); ok {
+				if format, ok := isWriterWrite(info, call); ok && strings.Contains(format, " Td") {
+					writesTd = true
+				}
+				for _, a := range call.Args {
+					if tv, ok := info.Types[a]; ok && tv.Value != nil && strings.Contains(tv.Value.ExactString(), " Td") {
+						writesTd = true
+					}
+				}
+			}
+			return true
+		})
+		if !writesTd {
+			return true
+		}
+		n++
+		pairs := map[string]bool{}
+		ast.Inspect(is.Cond, func(k ast.Node) bool {
+			call, ok := k.(*ast.CallExpr)
+			if !ok || len(call.Args) != 2 {
+				return true
+			}
+			idx := func(e ast.Expr) (string, bool, bool) { // "ab", isParam, ok
+				o, ok := core.Unparen(e).(*ast.IndexExpr)
+				if !ok {
+					return "", false, false
+				}
+				in, ok := core.Unparen(o.X).(*ast.IndexExpr)
+				if !ok {
+					return "", false, false
+				}
+				a, ok1 := core.ConstInt(info, in.Index)
+				b, ok2 := core.ConstInt(info, o.Index)
+				if !ok1 || !ok2 {
+					return "", false, false
+				}
+				isParam := false
+				if id, ok := core.Unparen(in.X).(*ast.Ident); ok && core.ObjOf(info, id) == mObj {
+					isParam = true
+				}
+				return fmt.Sprintf("%d%d", a, b), isParam, true
+			}
+			p1, m1, ok1 := idx(call.Args[0])
+			p2, m2, ok2 := idx(call.Args[1])
+			if ok1 && ok2 && p1 == p2 && m1 != m2 {
+				pairs[p1] = true
+			}
+			return true
+		})
+		var missing []string
+		for _, want := range []string{"00", "01", "10", "11"} {
+			if !pairs[want] {
+				missing = append(missing, "["+want[:1]+"]["+want[1:]+"]")
+			}
+		}
+		key := "pdf.pdfPageWriter.SetTextPosition|Td only if the linear part is unchanged"
+		if len(missing) == 0 {
+			r.OK("E5.text-matrix", key, c.Pos(is.Pos()), "")
+		} else {
+			r.Fail("E5.text-matrix", key, c.Pos(is.Pos()), fmt.Sprintf("the relative move is chosen without comparing entry %s of the text matrix: a matrix that differs from the remembered one only there is written as a translation", strings.Join(missing, ", ")))
+		}
+		return true
+	})
+	r.Count("E5.text-matrix-decisions", n)
+	r.Floor("E5.text-matrix-decisions", 1)
+}
